@@ -315,12 +315,17 @@ SECTIONS = []
 
 
 class Section:
-    def __init__(self, name, ids, static, render, sem=None, kind="value", needs=(), probe_note=""):
+    def __init__(self, name, ids, static, render, sem=None, kind="value", needs=(), probe_note="", exact=None):
         self.name = name
         self.ids = ids
         self.static = static
         self.render = render
         self.sem = sem or (lambda v, got: v)
+        # sem: what two readings must agree on (as fine as the probe can see); exact: everything of a static reading
+        # that the Coq text depends on apart from spelling (default: the same).  A reading whose exact meaning equals
+        # the recorded reference value is rendered with the reference text, so that a refactoring that changes no
+        # meaning leaves Tables.v byte-identical (no rebuild, no proof sees a different syntactic form).
+        self.exact = exact or self.sem
         self.kind = kind          # value | pin | flag (flag: static-only boolean reading of a shape)
         self.needs = needs
         self.probe_note = probe_note
@@ -417,6 +422,7 @@ def sem_variants(v, got):
 
 Section("tag_enum", ["tagv", "all_tagv", "tagv_index", "tagv_ident"], st_tag_enum,
         render_enum("tagv", "T_", "all_tagv", [("index", "tagv_index"), ("ident", "tagv_ident")]), sem_variants,
+        exact=lambda v, got: list(v["variants"]),
         probe_note="variants the harness enumerates (tag_list); a variant added to the enum is seen by the static reading only")
 
 
@@ -548,6 +554,7 @@ def st_sub_enum(src, got):
 
 Section("sub_enum", ["subv", "all_subv", "subv_ident", "subv_index"], st_sub_enum,
         render_enum("subv", "S_", "all_subv", [("ident", "subv_ident"), ("index", "subv_index")]), sem_variants,
+        exact=lambda v, got: list(v["variants"]),
         probe_note="variants the harness enumerates (sub_list)")
 
 
@@ -611,13 +618,12 @@ Section("sub_field_key", ["sub_field_key"], st_sub_field_key, render_bytes_const
 def st_sub_all_changed(src, got):
     sub_impl, ff = _sub_from_frame(src)
     if re.search(r"fn from_name\(raw: String\) -> Subsystem", sub_impl):
-        if norm(ff) != norm("""let mut changed = Vec::new(); while let Some(raw) = r.get("changed") { changed.push(Self::from_name(raw)); } changed"""):
-            raise TranslatorError("Subsystem::from_frame: loop over the changed fields has changed shape")
-        return {"ok": True}
+        return {"ok": norm(ff) == norm("""let mut changed = Vec::new(); while let Some(raw) = r.get("changed") { changed.push(Self::from_name(raw)); } changed""")}
     return {"ok": False}
 
 
-Section("sub_all_changed_fields", ["sub_all_changed_fields"], st_sub_all_changed, render_bool("sub_all_changed_fields"), kind="flag")
+Section("sub_all_changed_fields", ["sub_all_changed_fields"], st_sub_all_changed, render_bool("sub_all_changed_fields"), kind="pin",
+        probe_note="the real Client on an idle reply naming two subsystems: two events")
 
 
 def st_sub_event_sites(src, got):
@@ -627,7 +633,8 @@ def st_sub_event_sites(src, got):
     return {"ok": n_for == 2 and n_if == 0}
 
 
-Section("sub_event_sites_iterate", ["sub_event_sites_iterate"], st_sub_event_sites, render_bool("sub_event_sites_iterate"), kind="flag")
+Section("sub_event_sites_iterate", ["sub_event_sites_iterate"], st_sub_event_sites, render_bool("sub_event_sites_iterate"), kind="pin",
+        probe_note="two events for two changes, both while idling and in the reply to noidle")
 
 SUB_PAIRS_NOTE = "probe sub_pairs: all variants x Other(name in 3 letter cases), every pair"
 pin_section("sub_eq", CLIENT_MOD_RS, r"impl PartialEq for Subsystem\s*\{", "fn eq(&self, other: &Self) -> bool { self.as_str() == other.as_str() }", SUB_PAIRS_NOTE)
@@ -860,7 +867,7 @@ def render_operator_enum(v, got):
 
 
 Section("operator_enum", ["operator", "all_operators", "operator_ident", "operator_index"], st_operator_enum, render_operator_enum,
-        sem_variants, probe_note="variants the harness enumerates")
+        sem_variants, probe_note="variants the harness enumerates", exact=lambda v, got: list(v["variants"]))
 
 
 def st_operator_str(src, got):
@@ -1048,6 +1055,7 @@ def st_status_fields(src, got):
 
 
 Section("status_fields_read", ["status_fields_read"], st_status_fields, render_bytes_list("status_fields_read"), sem_set,
+        exact=lambda v, got: list(v["list"]),       # the order of the reads decides which error wins: only the static reading sees it
         probe_note="(as a set) the candidate keys whose presence with a junk value changes the decoding of a full status reply")
 
 
@@ -1140,7 +1148,8 @@ def st_range_saturating(src, got):
     return {"ok": sat.count("saturating_add(1)") == 2 and "pos+1" not in sat and "wrapping" not in sat}
 
 
-Section("range_saturating", ["range_saturating"], st_range_saturating, render_bool("range_saturating"), kind="flag")
+Section("range_saturating", ["range_saturating"], st_range_saturating, render_bool("range_saturating"), kind="pin",
+        probe_note="the two ranges that touch usize::MAX (excluded start, included end) render saturated, without panic (overflow checks on)")
 
 
 # ---------------------------------------------------------------- command_list.rs tuple impls
@@ -1168,6 +1177,7 @@ def render_tuple_impls(v, got):
 
 
 Section("tuple_impls", ["tuple_impls"], st_tuple_impls, render_tuple_impls, lambda v, got: sorted(v["lists"]),
+        exact=lambda v, got: list(v["lists"]),
         probe_note="typed tuples of arity 1..8 over commands with mutually undecodable replies: which command decodes which frame into which position")
 
 
@@ -1272,7 +1282,8 @@ def gen(repo, probe=None, fallback=None):
         if use is not None:
             try:
                 ref = fallback.get(s.name)
-                if how[s.name] == "probe" and ref is not None and canon(s.sem(use, got)) == canon(s.sem(ref["value"], got)):
+                same = (s.sem if how[s.name] == "probe" else s.exact)
+                if ref is not None and s.kind == "value" and canon(same(use, got)) == canon(same(ref["value"], got)):
                     # same meaning as the reference rendering: keep its text (identical Tables.v, no rebuild)
                     use = ref["value"]
                 text = s.render(use, dict(got, **{s.name: use}))
